@@ -26,3 +26,11 @@ package conditional
 //@ func (*conditionalStorageMiddleware).CopyObject
 //@ mode effects
 //@ effect[C24:cross-copy-carries-options] every storage.Storage($s).PutObject(_, _, _, _, _, _, $o) where $o != nil
+
+// Routing is by the exact bucket name (ghost scenario over a table of names that are prefixes and variants of each
+// other; bounded random search, the map lookup itself is not under a deductive contract: Go maps with interface values
+// and loops over them are outside the modelled subset).
+//@ func verifRouting
+//@ mode nosafety
+//@ bounded 3000
+//@ ensures[C24:routed-by-the-exact-bucket-name] result
